@@ -1,6 +1,7 @@
 SPEC = {
-    "lean_modules": ["AM.Props.Suppress", "AM.Props.C01", "AM.Props.C07", "AM.Props.C14"],
+    "lean_modules": ["AM.Props.Registry", "AM.Props.Suppress", "AM.Props.C01", "AM.Props.C07", "AM.Props.C14"],
     "theorems": [
+        "AM.Registry.subscribe_keeps_served",
         "AM.Suppress.unsuppressed_firing_listed", "AM.Suppress.surviving_iff",
         "AM.PutOrder.group_holds_stored_version", "AM.PutOrder.split_put_reorders",
         "AM.Group.first_tick_le", "AM.Group.flush_gap_le", "AM.Group.stored_firing_is_flushed",
